@@ -18,11 +18,11 @@ static void update_time_stat(struct report_time_stat *ts, uint64_t time_ns, bool
 {
 	if (recursive) {
 		ts->rec += time_ns;
-		ts->rec_sq += time_ns * time_ns;
+		ts->rec_sq += (double)time_ns * (double)time_ns;
 	}
 	else {
 		ts->sum += time_ns;
-		ts->sum_sq += time_ns * time_ns;
+		ts->sum_sq += (double)time_ns * (double)time_ns;
 	}
 
 	if (ts->min > time_ns)
@@ -33,15 +33,18 @@ static void update_time_stat(struct report_time_stat *ts, uint64_t time_ns, bool
 
 static void finish_time_stat(struct report_time_stat *ts, unsigned long call)
 {
+	double mean;
 	double variance;
 
 	ts->avg = (ts->sum + ts->rec) / call;
+	mean = (double)(ts->sum + ts->rec) / call;
 
-	variance = (ts->sum_sq + ts->rec_sq) / call;
-	variance -= ts->avg * ts->avg;
+	variance = (ts->sum_sq + ts->rec_sq) / call - mean * mean;
+	if (variance < 0) /* rounding */
+		variance = 0;
 
 	/* no deviation to speak of when the mean is zero (0/0 would print "-nan%") */
-	ts->stdv = ts->avg ? sqrt(variance / call) * 100 / ts->avg : 0;
+	ts->stdv = mean > 0 ? sqrt(variance / call) * 100 / mean : 0;
 }
 
 static struct uftrace_report_node *find_or_create_node(struct rb_root *root, const char *name,
